@@ -424,24 +424,32 @@ func (e *Enc) storeTo(p Ptr, t types.Type, v Val) {
 			e.setVarAt(key, p.Sl.Arr, store(m, p.Sl.Arr, store(inner, add(p.Sl.Off, p.Idx), ts[i])))
 		}
 	case pGlobal:
-		key := "V|" + p.Glob.Pkg.Pkg.Path() + "." + p.Glob.Name()
-		e.abstract("store-to-global:" + key)
-		e.globals[key] = nil
-		if e.writesV != nil {
-			e.writesV[key] = true
-		}
+		e.storeGlobal(p.Glob, p.Path, t, v)
 	default:
 		e.abstract("store-through-unknown-pointer")
 		e.havocAll("store-through-unknown-pointer")
 	}
 }
 
+func globalKey(g *ssa.Global) string { return "V|" + g.Pkg.Pkg.Path() + "." + g.Name() }
+
 func (e *Enc) loadGlobal(g *ssa.Global, t types.Type, path []int) Val {
-	key := "V|" + g.Pkg.Pkg.Path() + "." + g.Name()
-	if v, ok := e.globals[key]; ok && v != nil {
-		return e.project(v, deref(g.Type()), path)
-	}
+	key := globalKey(g)
 	gt := deref(g.Type())
+	if !e.L.globalIsConst(g) {
+		// mutable package-level variable: part of the state (one variable per leaf)
+		ls := leavesOf(gt)
+		i := 0
+		v := e.rebuild(gt, func() T {
+			l := ls[i]
+			i++
+			return e.getVar(e.cur, key+"|"+l.Name, l.Sort)
+		})
+		return e.project(v, gt, path)
+	}
+	if v, ok := e.globals[key]; ok && v != nil {
+		return e.project(v, gt, path)
+	}
 	var v Val
 	switch gt.Underlying().(type) {
 	case *types.Interface:
@@ -463,6 +471,20 @@ func (e *Enc) loadGlobal(g *ssa.Global, t types.Type, path []int) Val {
 	}
 	e.globals[key] = v
 	return e.project(v, gt, path)
+}
+
+func (e *Enc) storeGlobal(g *ssa.Global, path []int, t types.Type, v Val) {
+	key := globalKey(g)
+	gt := deref(g.Type())
+	if len(path) > 0 {
+		whole := e.loadGlobal(g, gt, nil)
+		v = e.inject(whole, path, v)
+	}
+	ls := leavesOf(gt)
+	ts := e.flatten(gt, v)
+	for i, l := range ls {
+		e.setVar(key+"|"+l.Name, ts[i])
+	}
 }
 
 // havocAll forgets every heap/memory variable (unknown callee).
